@@ -55,6 +55,23 @@ def pattern_configs(tier):
             prod.update(batch_send=True, batch_every_n=2, batch_every_b=0, batch_every_t=0)
         out.append({"cluster": dict(cl, modes=[mode]), "discovery": False, "producer": prod, "script": S_RR4,
                     "menu": {"timer_early": True, "app_early": True}, "timeout_ms": 2000})
+    # a partition without a leader: the client refuses the whole request before any I/O, attempt after attempt
+    for batched, attempts in itertools.product([False, True], [2, 3]):
+        prod = {"acks": 1, "max_req_attempts": attempts, "retry_interval": 0.25}
+        if batched:
+            prod.update(batch_send=True, batch_every_n=2, batch_every_b=0, batch_every_t=0)
+        cl = {"brokers": [1, 2], "topics": {"t": {"0": 1, "1": -1}, "u": {"0": 1}}}
+        out.append({"cluster": cl, "discovery": False, "producer": prod, "script": S_RR4,
+                    "menu": {"timer_early": True, "app_early": True}, "timeout_ms": 2000})
+    # the application closes the client while a retry is pending: the remaining attempts are refused synchronously
+    for batched, attempts, mode in itertools.product([False, True], [2, 3, 4], [
+            {"api": 0, "err": 6, "budget": -1}, {"api": 0, "silent": True, "budget": -1}]):
+        prod = {"acks": 1, "max_req_attempts": attempts, "retry_interval": 0.25}
+        if batched:
+            prod.update(batch_send=True, batch_every_n=2, batch_every_b=0, batch_every_t=0)
+        out.append({"cluster": dict(CLUSTER, modes=[mode]), "discovery": False, "producer": prod,
+                    "script": S_TWO[:2] + [["close_client"]], "menu": {"timer_early": True, "app_early": True},
+                    "timeout_ms": 2000})
     # long failure runs: the geometric sequence needs >= 3 retry timers to be distinguishable
     for mode in ({"api": 0, "err": 7, "budget": -1}, {"api": 0, "err": 6, "budget": 4, "only": ["t", 1]},
                  {"api": 0, "silent": True, "budget": 3}):
@@ -71,7 +88,8 @@ RULE = ("real Producer+KafkaClient, 2 brokers, topic t with 2 partitions (on dif
         "and topic u; scripts of 3-4 sends (round-robin and keyed/hashed streams), batched (n=2) and unbatched, "
         "attempt limit {2,3}.  Alphabet: correct reply, error {6,7} for the whole request or one partition, silent "
         "broker, drop, timer before pending I/O, next send before quiescence (i.e. while replies or a retry timer are "
-        "pending); sticky per-partition error patterns lasting 1, 2 or all attempts.  Oracle over the broker-side "
+        "pending); sticky per-partition error patterns lasting 1, 2 or all attempts; a leaderless partition; the "
+        "application closing the client while a retry is pending (later attempts are refused synchronously).  Oracle over the broker-side "
         "request journal: per partition messages follow send order in every request and in the log; a message is in "
         "one payload per request; no new batch reaches the wire while a send of an earlier batch is unresolved; a "
         "payload acknowledged with error 0 is reported at once and never transmitted again; retry timers are "
